@@ -16,6 +16,10 @@ prescribes on that state:
     plain Get, both on compact_rev_key): answered without an error it is `txn-near-compact-probe-swallowed` (before
     /repo 2870609 it got the probe's canned answer: neither rejected nor executed); the probe itself gets the canned
     answer (deliberate emulation, correspondence only) and must not be refused (`txn-compact-probe-refused`);
+    a supported DELETE shape whose delete op asks for prev_kv is such an "other shape" too (/repo c09cadc: its answer would
+    have to be a delete response carrying prev_kvs; before, it was executed as the plain delete and answered with a range
+    response): answered without an error it is `txn-delete-prev-kv-executed` (`delete_prev_kv_misses`, witness scripts
+    `delete_with_prev_kv_rejected`, `old_delete_prev_kv_executed`, `delete_prev_kv_deleted_key`);
   * point and range reads: kvs in key order, more, count, header revision — on bounds (incl. empty,
     inverted, from-key, and bounds of the form key+\x00: the continue key of a paginated list, the end of a
     single-key range — judged on RAW keys), limits, count_only (also at an explicit revision: the count of
@@ -393,11 +397,25 @@ def shape_of(t, neg=False):
         if len(f) == 1 and plain_get(f[0], k) and len(s) == 1:
             if s[0]["t"] == "put" and s[0]["key"] == k and not s[0]["flags"]:
                 return ("update", k)
-            if s[0]["t"] == "del" and s[0]["key"] == k and not s[0]["end"]:
+            if s[0]["t"] == "del" and s[0]["key"] == k and not s[0]["end"] and "p" not in s[0]["flags"]:
                 return ("gdelete0" if c[0]["arg"] <= 0 else "gdelete", k)
-    if not c and not f and len(s) == 2 and s[1]["t"] == "del" and not s[1]["end"] and plain_get(s[0], s[1]["key"]):
+    if not c and not f and len(s) == 2 and s[1]["t"] == "del" and not s[1]["end"] and "p" not in s[1]["flags"] and \
+            plain_get(s[0], s[1]["key"]):
         return ("udelete", s[1]["key"])
     return None
+
+
+def delete_prev_kv_shape(t):
+    """A supported delete shape (guarded or unguarded; kv.go pointDelete) EXCEPT that its delete op asks for prev_kv: the shape
+    the transaction would have with the flag dropped, else None. Such a transaction is none of the supported shapes (/repo
+    c09cadc; `KB.C16.delete_with_prev_kv_rejected`): etcd answers its delete op with a DeleteRangeResponse carrying prev_kvs,
+    the supported delete shapes are answered with a range response."""
+    dels = [o for o in t["then"] + t["else"] if o["t"] == "del"]
+    if len(dels) != 1 or "p" not in dels[0]["flags"]:
+        return None
+    strip = lambda o: dict(o, flags=o["flags"].replace("p", "")) if o["t"] == "del" else o
+    shp = shape_of(txn(t["cmp"], [strip(o) for o in t["then"]], [strip(o) for o in t["else"]]), True)
+    return shp if shp is not None and shp[0] in ("gdelete", "udelete") else None
 
 
 def has_probe_compare(t):
@@ -433,6 +451,8 @@ def near_miss_category(t):
         return "txn-ranged-delete-executed-as-point"
     if any(o["t"] == "put" and o["flags"] for o in ops):
         return "txn-update-put-flags-ignored"
+    if delete_prev_kv_shape(t) is not None:
+        return "txn-delete-prev-kv-executed"
     return "txn-op-options-ignored"
 
 
@@ -704,6 +724,17 @@ def oracle(case, tolerated=()):
                            "Then(ONE plain Put compact_rev_key) Else(ONE plain Get compact_rev_key): this transaction was neither rejected nor "
                            "executed (its put silently dropped, an invented key-value as the answer of its read); it must be rejected with an error"
                            % ("the canned answer" if is_canned_probe_answer(res) else "no error"), "txn-near-compact-probe-swallowed")
+                    break
+                if res[0] != "err" and near_miss_category(tx) == "txn-delete-prev-kv-executed":
+                    # (before /repo c09cadc pointDelete looked only at range_end)
+                    dk = delete_prev_kv_shape(tx)[1]
+                    old = ref.kv.get(dk)
+                    hit(i, "a %s delete whose delete op asks for prev_kv was executed as the plain delete and answered with %s — no delete "
+                           "response, no prev_kvs: etcd answers the delete op with a DeleteRangeResponse whose prev_kvs = %s (that is where a "
+                           "client that sets prev_kv reads the deleted key-value); it is none of the supported shapes and must be rejected with "
+                           "an error, not executed as something else"
+                        % ("guarded" if tx["cmp"] else "unguarded", "/".join(x[0] for x in res[3]) + " response(s)" if res[0] == "ok" else res,
+                           [(dk, old[0], old[1])] if old else []), "txn-delete-prev-kv-executed")
                     break
                 if res[0] != "err":
                     hit(i, "a transaction outside the supported shapes was executed instead of being rejected", near_miss_category(tx))
@@ -1274,6 +1305,35 @@ def near_misses(r, keys, sh):
     return out
 
 
+def delete_prev_kv_misses(r, keys, sh):
+    """The supported delete shapes with prev_kv on the delete op (/repo c09cadc; before: executed as the plain delete, answered
+    with a range response): guarded and unguarded; on an existing, a deleted and a never-written key; with the correct, a
+    stale (a revision the key once had / below the current one) and a far expectation; the point Get with a harmless limit.
+    All must be refused with an error and leave the store unchanged (theorem delete_with_prev_kv_rejected)."""
+    live = [k for k in keys if k in sh.live]
+    gone = [k for k in keys if k not in sh.live and sh.old.get(k)]
+    never = [k for k in keys if k not in sh.live and not sh.old.get(k)] or [PREFIX + b"/zz/never"]
+    out = []
+    P = lambda k: dele(k, flags="p")
+    for k in live:
+        cur = sh.live[k]
+        out += [txn([cmp_(k, cur)], [P(k)], [rng(k)]),                           # guarded, correct expectation: would delete
+                txn([cmp_(k, max(1, cur - r.randint(1, 3)))], [P(k)], [rng(k)]), # guarded, stale: below the current revision
+                txn([cmp_(k, sh.dealt + r.randint(1, 40))], [P(k)], [rng(k)]),   # guarded, far expectation
+                txn([], [rng(k), P(k)], []),                                     # unguarded: would delete
+                txn([], [rng(k, limit=1), P(k)], []),                            # unguarded, the Get with a limit (still plain)
+                txn([cmp_(k, cur)], [P(k)], [rng(k, limit=r.randint(1, 3))])]    # guarded, the failure Get with a limit
+        for o in sh.old.get(k, [])[-1:]:
+            out.append(txn([cmp_(k, o)], [P(k)], [rng(k)]))                      # guarded, stale: a revision the key once had
+    for k in gone:
+        out += [txn([cmp_(k, sh.old[k][-1])], [P(k)], [rng(k)]),                 # deleted key, the revision it had
+                txn([], [rng(k), P(k)], [])]                                     # deleted key, unguarded
+    for k in never[:2]:
+        out += [txn([cmp_(k, r.randint(INIT, sh.dealt))], [P(k)], [rng(k)]),     # missing key, some revision
+                txn([], [rng(k), P(k)], [])]                                     # missing key, unguarded
+    return out
+
+
 def probe(n=0, v=b"1", lease=0, limit=0):
     """Kubernetes' compaction probe (compact.go): the compared version n, the new compact revision as the value"""
     return txn([cmp_(COMPACT_KEY, n, "ver")], [put(COMPACT_KEY, v, lease)], [rng(COMPACT_KEY, limit=limit)])
@@ -1333,6 +1393,9 @@ def gen_unsupported(seed, i, engine, n_far, with_near=True):
         elif with_near and x < 0.44:
             # ... and the probe itself: the canned answer (not refused), nothing executed
             t = probe(r.choice([0, 1, r.randint(2, 60)]), r.choice(GOOD_VALUES), r.choice([0, 0, 5]), r.choice([0, 0, 1]))
+        elif with_near and x < 0.52:
+            # a supported delete shape whose delete op asks for prev_kv (/repo c09cadc): refused like the others
+            t = r.choice(delete_prev_kv_misses(r, keys, sh))
         else:
             t = far_unsupported(r, keys)
         lines += [render_txn(t), "rev", full]
@@ -1383,6 +1446,32 @@ def witness_cases(engine):
         txn([cmp_(A, INIT + 1)], [put(A, V2)], [rng(A, rev=INIT + 3)]),
         txn([cmp_(A, INIT + 2)], [dele(A)], [rng(A, HI)]),
         txn([cmp_(A, INIT + 2)], [dele(A)], [rng(A, flags="k")])])
+    # theorems delete_with_prev_kv_rejected / delete_with_prev_kv_rejected_witness (/repo c09cadc; formerly: executed as the plain delete
+    # and answered with a range response): guarded with the correct / a stale expectation on the existing /r/b, guarded on the missing
+    # /r/d, unguarded on /r/b and on /r/d — all with prev_kv on the delete op; same five transactions, same order
+    DP = lambda k: dele(k, flags="p")
+    w["delete_with_prev_kv_rejected"] = refused([
+        txn([cmp_(B, INIT + 2)], [DP(B)], [rng(B)]),
+        txn([cmp_(B, INIT + 1)], [DP(B)], [rng(B)]),
+        txn([cmp_(D, INIT + 2)], [DP(D)], [rng(D)]),
+        txn([], [rng(B), DP(B)], []),
+        txn([], [rng(D), DP(D)], [])])
+    # theorem old_delete_prev_kv_executed: the two transactions of the refutation (`delPrevG`, `delPrevU`; before c09cadc the first
+    # deleted /r/b at 1004 and answered a range response holding /r/b=v2@1002) — now refused; then the same deletes WITHOUT prev_kv
+    # are still the supported shapes (the plain guarded delete deletes /r/b, the plain unguarded one finds it missing)
+    w["old_delete_prev_kv_executed"] = refused([txn([cmp_(B, INIT + 2)], [DP(B)], [rng(B)]), txn([], [rng(B), DP(B)], [])]) + \
+        [render_txn(t_gdelete(B, INIT + 2)), "rev", FULL, render_txn(t_udelete(B)), "rev", FULL]
+    # ... and on a DELETED key (its old revision, a newer one, unguarded), a re-created key (old and new revision), with a limit on
+    # the point Get: every state, every expectation (the general theorem), deterministic on every engine
+    w["delete_prev_kv_deleted_key"] = pre + [render_txn(t_gdelete(C_, INIT + 3)), "rev", FULL] + \
+        [x for t in [txn([cmp_(C_, INIT + 3)], [DP(C_)], [rng(C_)]), txn([cmp_(C_, INIT + 4)], [DP(C_)], [rng(C_)]),
+                     txn([], [rng(C_), DP(C_)], []), txn([], [rng(C_, limit=1), DP(C_)], [])]
+         for x in (render_txn(t), "rev", FULL)] + \
+        [render_txn(t_create(C_, V9)), "rev", FULL] + \
+        [x for t in [txn([cmp_(C_, INIT + 3)], [DP(C_)], [rng(C_)]), txn([cmp_(C_, INIT + 5)], [DP(C_)], [rng(C_, limit=2)]),
+                     txn([], [rng(C_), DP(C_)], []), txn([cmp_(A, INIT + 1)], [dele(A, HI, flags="p")], [rng(A)])]
+         for x in (render_txn(t), "rev", FULL)] + \
+        [render_txn(t_gdelete(C_, INIT + 5)), "rev", FULL]
     PC = cmp_(COMPACT_KEY, 0, "ver")
     K = COMPACT_KEY
     # theorem old_probe_recogniser_swallowed_put: the transaction of the refutation alone (etcd: Version(compact_rev_key) = 0 holds,
@@ -1517,6 +1606,9 @@ def inject_shapes(k):
         ("udelete", t_udelete(k)),
         ("compact", txn([cmp_(COMPACT_KEY, 0, "ver")], [put(COMPACT_KEY, b"1")], [rng(COMPACT_KEY)])),
         ("unsupported", txn([], [put(k, V9)], [])),
+        # the delete shapes with prev_kv on the delete op (/repo c09cadc): no backend call, the armed answer stays
+        ("gdelete_prev_kv", txn([cmp_(k, INIT + 1)], [dele(k, flags="p")], [rng(k)])),
+        ("udelete_prev_kv", txn([], [rng(k), dele(k, flags="p")], [])),
     ]
 
 
@@ -1528,7 +1620,7 @@ def inject_cases(engine):
     cases = []
     for k in (A, D):                    # an existing and a missing key (the scripted answer does not depend on it)
         for name, t in inject_shapes(k):
-            if k == D and name not in ("udelete", "create", "gdelete"):
+            if k == D and name not in ("udelete", "create", "gdelete", "udelete_prev_kv"):
                 continue
             lines = list(pre)
             for a in backend_answers(k):
@@ -1642,7 +1734,10 @@ def check(rep, tier, seed):
     wit += [bounds_case(seed, i, ENGINES[i % len(ENGINES)]) for i in range(6 if tier == "quick" else 60)]
     # the cheap, most telling scripts first; then batches — the run stops at the first confirmed violation
     # (a tree on which model and implementation differ must not cost one timeout per remaining script)
-    wit.sort(key=lambda c: 0 if c.meta.get("witness") == "range_stream_needs_borders_regions" else 1)   # (a crash says most)
+    # (a crash says most; then the short scripts of the refutation of /repo c09cadc, so that a tree without it is reported with
+    # the ten-line witness and a real deletion rather than with a row of the scripted-backend table)
+    FIRST = {"range_stream_needs_borders_regions": 0, "old_delete_prev_kv_executed": 1, "delete_with_prev_kv_rejected": 1}
+    wit.sort(key=lambda c: FIRST.get(c.meta.get("witness"), 2))
     # reads at the partition-listing magic revision 1888 (/repo e617587; C03 through the etcd endpoint as well)
     n_magic = 2 if tier == "quick" else 21
     magic_engines = ["memkv", "badger"] if tier == "quick" else ENGINES
@@ -1666,7 +1761,8 @@ def check(rep, tier, seed):
                 if ln.startswith("txn "):
                     tx = parse_txn_line(ln)
                     s = shape_of(tx)
-                    k = s[0] if s else ("compact_probe" if is_compact_probe(tx) else "near_compact_probe" if has_probe_compare(tx) else "other")
+                    k = s[0] if s else ("compact_probe" if is_compact_probe(tx) else "near_compact_probe" if has_probe_compare(tx) else
+                                        "delete_prev_kv" if delete_prev_kv_shape(tx) else "other")
                     shapes[k] = shapes.get(k, 0) + 1
         for c in batch:
             hits = oracle(c)
@@ -1693,7 +1789,7 @@ def check(rep, tier, seed):
     rep.cov["rule"] = ("scripts for the `etcd` suite: the fixed witness scripts of the concrete theorems; random histories of the four "
                        "Kubernetes transaction shapes (correct / stale / zero expectations over existing, missing and deleted keys) "
                        "interleaved with point, range, limited and count_only reads and prefix watches; scripts of grammar-generated "
-                       "unsupported transactions and near misses of the supported shapes and of the compaction probe (its compare, other ops), each followed by a full-range read; "
+                       "unsupported transactions and near misses of the supported shapes (incl. the delete shapes with prev_kv on the delete op) and of the compaction probe (its compare, other ops), each followed by a full-range read; "
                        "the probe itself (canned answer, must not be refused); the table "
                        "transaction shape x backend answer (scripted backend: `inject`), the lost-race answers on a consistent store, and real "
                        "races (a transaction parked at its storage calls while a writer commits). A script "
